@@ -54,6 +54,9 @@ class CFormatter(Formatter):
 
     @override(Formatter)
     def format_comment(self, content: str) -> str:
+        # A line comment ending with a backslash continues onto the next line in C,
+        # which comments out the following line of code.
+        content = content.rstrip().rstrip("\\").rstrip()
         return f"// {content}"
 
     def format_sizeof(self, t: str) -> str:
